@@ -36,6 +36,10 @@ type cfgT struct {
 	regex       *string  // TreeDiff.FilteredRegexes (nil: fact absent)
 	langs       []string // TreeDiff.LanguagesDetection (nil: fact absent)
 	failMissing bool     // BlobCache.FailOnMissingSubmodules
+	// decoy (only with blacklist): the TreeDiff item is first configured with THIS list of prefixes and initialised,
+	// then configured with the real one and initialised again - re-use of an instance; nothing of the first
+	// configuration may survive (the model knows only the real one)
+	decoy []string
 }
 
 type fileT struct {
@@ -171,7 +175,15 @@ func (c cfgT) sx() Sx {
 		}
 		la = T("langs", l...)
 	}
-	return T("cfg", T("blacklist", B(c.blacklist)), T("skip", skip...), re, la, T("failmissing", B(c.failMissing)))
+	fields := []Sx{T("blacklist", B(c.blacklist)), T("skip", skip...), re, la, T("failmissing", B(c.failMissing))}
+	if c.decoy != nil {
+		d := make([]Sx, len(c.decoy))
+		for i, s := range c.decoy {
+			d[i] = strSx(s)
+		}
+		fields = append(fields, T("decoy", d...))
+	}
+	return T("cfg", fields...)
 }
 
 func cfgFromSx(s Sx) cfgT {
@@ -197,6 +209,12 @@ func cfgFromSx(s Sx) cfgT {
 	}
 	f, _ = s.Field("failmissing")
 	c.failMissing = f.Args()[0].Int() != 0
+	if f, ok := s.Field("decoy"); ok {
+		c.decoy = []string{}
+		for _, x := range f.Args() {
+			c.decoy = append(c.decoy, sxStr(x))
+		}
+	}
 	return c
 }
 
@@ -405,6 +423,13 @@ func runCase(cs caseT) (obs []Sx, nontrivial bool, flip bool) {
 	facts[api.ConfigBlobCacheFailOnMissingSubmodules] = cs.cfg.failMissing
 	td0 := &api.TreeDiff{}
 	bc0 := &api.BlobCache{}
+	if cs.cfg.decoy != nil && cs.cfg.blacklist {
+		if err := td0.Configure(map[string]interface{}{api.ConfigTreeDiffEnableBlacklist: true,
+			api.ConfigTreeDiffBlacklistedPrefixes: cs.cfg.decoy}); err != nil {
+			panic(err)
+		}
+		td0.Initialize(repo)
+	}
 	if err := td0.Configure(facts); err != nil {
 		panic(err)
 	}
@@ -491,8 +516,13 @@ func runCase(cs caseT) (obs []Sx, nontrivial bool, flip bool) {
 	sort.Strings(paths)
 	vendor := []Sx{B(enry.IsVendor(""))}
 	name := []Sx{B(td0.NameFilter != nil), B(td0.NameFilter != nil && td0.NameFilter.MatchString(""))}
+	// the prefixes as CONFIGURED (not as the item keeps them: it may reorder or index them)
+	var cfgSkip []string
+	if cs.cfg.blacklist {
+		cfgSkip = cs.cfg.skip
+	}
 	for _, p := range paths {
-		if len(td0.SkipFiles) > 0 { // filterDiffs does not consult enry.IsVendor otherwise (and it is slow)
+		if len(cfgSkip) > 0 { // filterDiffs does not consult enry.IsVendor otherwise (and it is slow)
 			vendor = append(vendor, L(A(p), B(enry.IsVendor(p))))
 		}
 		if td0.NameFilter != nil {
@@ -526,8 +556,8 @@ func runCase(cs caseT) (obs []Sx, nontrivial bool, flip bool) {
 			}
 		}
 	}
-	fskip := make([]Sx, len(td0.SkipFiles))
-	for i, s := range td0.SkipFiles {
+	fskip := make([]Sx, len(cfgSkip))
+	for i, s := range cfgSkip {
 		fskip[i] = strSx(s)
 	}
 	obs = append(obs, T("chash", chash...), T("trees", trees...), T("mods", mods...), T("blobs", blobs...),
